@@ -52,6 +52,7 @@ type Contract struct {
 	Observes   []string // expressions whose values counterexamples report
 	Locked     []string // lock field names that every caller must hold
 	AtCalls    []*AtCall // assertions checked in this function just before calls of a named callee
+	TimeoutS   int      // per-obligation solver budget for this unit in seconds (0 = tier default)
 	Prune      bool     // drop branches the precondition rules out while executing (narrow-precondition variants)
 	DeadReturnCount int // number of return sites that are legitimately unreachable under the precondition (defensive dead code)
 }
@@ -66,7 +67,7 @@ type RegionSpec struct {
 
 var clauseKeywords = map[string]bool{"func": true, "requires": true, "ensures": true, "modifies": true, "loop": true,
 	"pure": true, "trusted": true, "inline": true, "nosafety": true, "props": true, "assume": true, "region": true,
-	"from": true, "to": true, "ghost": true, "lemma": true, "vars": true, "safetyonly": true, "field": true, "monitor": true, "end": true, "observe": true, "deadreturn": true, "locked": true, "prune": true, "atcall": true}
+	"from": true, "to": true, "ghost": true, "lemma": true, "vars": true, "safetyonly": true, "field": true, "monitor": true, "end": true, "observe": true, "deadreturn": true, "locked": true, "prune": true, "atcall": true, "atsend": true, "timeout": true}
 
 type rawLine struct {
 	text string
@@ -217,8 +218,25 @@ func ParseContractFile(path string) ([]*Contract, []*Decl, error) {
 			cur.Props = append(cur.Props, fields[1:]...)
 		case "assume":
 			cur.Assumes = append(cur.Assumes, rest)
+		case "timeout":
+			n, err := strconv.Atoi(strings.TrimSpace(rest))
+			if err != nil {
+				return nil, nil, fmt.Errorf("%s:%d: timeout <seconds>", path, rl.line)
+			}
+			cur.TimeoutS = n
 		case "prune":
 			cur.Prune = true
+		case "atsend":
+			// atsend assert <expr>   (checked before every channel send / select with a send case; "sent" names the value)
+			i := strings.Index(rest, "assert ")
+			if i < 0 {
+				return nil, nil, fmt.Errorf("%s:%d: atsend assert <expr>", path, rl.line)
+			}
+			e, err := parseSpecExpr(rest[i+7:])
+			if err != nil {
+				return nil, nil, fmt.Errorf("%s:%d: %v", path, rl.line, err)
+			}
+			cur.AtCalls = append(cur.AtCalls, &AtCall{Callee: "<send>", Text: rest[i+7:], Expr: e, Line: rl.line, File: path})
 		case "atcall":
 			// atcall <callee key> assert <expr>
 			i := strings.Index(rest, " assert ")
